@@ -47,13 +47,14 @@ class RuleTZ(datetime.tzinfo):
         return lo if dt.fold == 0 else hi    # skipped hour
 
     def utcoffset(self, dt):
-        return datetime.timedelta(minutes=self._off(dt))
+        # the rules depend on the date: a bare time has no offset (as with zoneinfo)
+        return None if dt is None else datetime.timedelta(minutes=self._off(dt))
 
     def dst(self, dt):
-        return datetime.timedelta(minutes=self._off(dt) - self.std)
+        return None if dt is None else datetime.timedelta(minutes=self._off(dt) - self.std)
 
     def tzname(self, dt):
-        return self.names[0] if self._off(dt) == self.std else self.names[1]
+        return None if dt is None else (self.names[0] if self._off(dt) == self.std else self.names[1])
 
     def fromutc(self, dt):
         u = dt.replace(tzinfo=None)
